@@ -14,7 +14,9 @@ CONSTANTS
     Mode = "remote"
     UpgradeSend = "blocking"
     UpgraderSem = "drop"
-    UpgradeRecheck = TRUE
+    Reloads = {}
+    IOFaults = FALSE
+    UpgradeRecheck = "full"
     MaxCalls = 1
     Kinds = {"auth", "update", "remove"}
     InitFiles <- MCInit1
